@@ -32,6 +32,10 @@ def gen_cases(tier, seed):
             cases.append({"kind": "chain", "n": n, "seed": int(rng.integers(2 ** 31))})
     for n in (500, 2000):
         cases.append({"kind": "wide", "n": n, "seed": int(rng.integers(2 ** 31))})
+    # deep graphs in which every step joins two recorded branches (residual updates h = h + f(h), gated sums): depth far beyond the recursion limit
+    for n in (3000, 12000) + ((60000,) if tier == "thorough" else ()):
+        for variant in ("h+h*c", "h*g+tanh(h)", "concat-halves"):
+            cases.append({"kind": "residual", "n": n, "variant": variant, "seed": int(rng.integers(2 ** 31))})
     for n in (300, 5000, 20000):
         cases.append({"kind": "grad-with-history", "n": n, "seed": int(rng.integers(2 ** 31))})
     for depth in (10, 40, 60):
@@ -124,6 +128,33 @@ def run_case(ns, mon, c):
                           got=None if x.grad is None else x.grad.data.ravel()[:3].tolist(), want=factor))
         nrec = c["n"] + int(np.sum(0))     # every op records exactly one function except the two double-ops
         key = ("chain", c["n"], c["seed"])
+    elif kind == "residual":
+        x = T(np.array([0.5, -0.25, 1.0, 2.0]), requires_grad=True)
+        h = x * 1.0
+        n = c["n"]
+        var = c["variant"]
+        for i in range(n):
+            if var == "h+h*c":
+                h = h + h * 1e-4
+            elif var == "h*g+tanh(h)":
+                h = h * 0.9999 + sg.tanh(h) * 1e-4
+            else:
+                h = sg.concat([h[:2] * 1.0001, h[2:] + h[:2] * 1e-5], 0)
+        out = h.sum()
+        inv0 = mon.counters.get("grad_fn_invocations", 0)
+        try:
+            out.backward()
+        except RecursionError:
+            return {"viol": [V("deep-chain:RecursionError:residual", f"backward raised RecursionError on {n} residual steps ({var}) at recursion limit {sys.getrecursionlimit()}")] + mon.drain(),
+                    "counters": counters}
+        except Exception as e:
+            return {"viol": [V(f"deep-chain:{type(e).__name__}:residual", f"backward raised {type(e).__name__} on {n} residual steps ({var})", error=str(e)[:200])] + mon.drain(),
+                    "counters": counters}
+        counters["residual_steps_differentiated"] = n
+        if x.grad is None or not np.all(np.isfinite(x.grad.data)) or (var == "h+h*c" and not np.allclose(x.grad.data, (1 + 1e-4) ** n, rtol=1e-9)):
+            viol.append(V("deep-chain:wrong-gradient:residual", f"gradient through {n} residual steps ({var}) is wrong", got=None if x.grad is None else x.grad.data.tolist()))
+        mv = mon.drain()
+        return {"key": ("residual", n, var), "viol": viol + mv, "counters": counters, "cover": {"scenarios": [f"residual:{var}"]}}
     elif kind == "grad-with-history":
         # the gradient handed to backward() is itself the result of a long recorded computation: only its value matters
         x = T(np.arange(1.0, 7.0).reshape(2, 3), requires_grad=True)
